@@ -235,6 +235,13 @@ def run(ctx):
         has[spec] = {g['name']: g['has'] for g in info['groups']}
         rngs[spec] = {g['name']: g.get('range') for g in info['groups']}
         jobs += make_jobs(ctx, spec, info, ctx.n(25, 300) if spec in libs else ctx.n(15, 60))
+    # some estimates on HAND-BUILT libraries (empty library + Update), made after another hand-built library received uncertainty data
+    import copy
+    hb = [copy.deepcopy(j) for j in jobs if j['kind'] == 'random' and ('BensonGA' in j['lib'] or j['lib'] not in libs)][:ctx.n(12, 80)]
+    for j in hb:
+        j['handbuilt'] = 'GRWSurface2018'
+        j['kind'] = 'random'
+    jobs += hb
     # keep the jobs of one library in one child (library load is the cost)
     jobs.sort(key=lambda j: j['lib'])
     results = run_by_lib(jobs)
@@ -247,6 +254,16 @@ def run(ctx):
             continue
         ctx.count((job['lib'], tuple(map(tuple, job['mapping']))), nontrivial=len(job['mapping']) > 1 or job['kind'] == 'unit')
         oracle(ctx, job, res, has[job['lib']], rngs[job['lib']])
+        ia = res.get('int_array')
+        if ia and 'vals' in res:
+            for p_ in job['props']:
+                got_ = ia['vals'].get(p_)
+                sc_ = [res['vals'][p_][job['Ts'].index(float(T_))] if float(T_) in job['Ts'] else None for T_ in ia['T']]
+                if isinstance(got_, list) and all(x_ is not None and x_.get('v') is not None for x_ in sc_):
+                    if len(got_) != len(sc_) or any(abs(a_ - b_['v']) > 1e-12 * (1 + abs(b_['v'])) for a_, b_ in zip(got_, sc_)):
+                        ctx.violate('int-array:%s|%s' % (p_, job['lib'][-30:]), '%s of the estimate on an integer-typed temperature array differs from the scalar calls' % p_,
+                                    dict(job, prop=p_, Tarray=ia['T']), [b_['v'] for b_ in sc_], got_)
+                        break
         va = res.get('vals_after_elements')
         if isinstance(va, dict) and 'vals' in res and 'exc' not in va:
             for p_ in job['props']:
